@@ -29,8 +29,11 @@ Definition triple_eqb (a b : Z * Z * Z) : bool :=
 Fixpoint triples_eqb (a b : list (Z * Z * Z)) : bool :=
   match a, b with [], [] => true | x :: a', y :: b' => triple_eqb x y && triples_eqb a' b' | _, _ => false end.
 
-Definition deliv_match (twins : bool) (m o : list (Z * Z * Z)) : bool :=
-  if twins then triples_eqb (isort triple_leb m) (isort triple_leb o) else triples_eqb m o.
+(* with twins (see Check/C09.v) the order in which the two files are read is the iteration order of a Python set:
+   handler calls are then compared as a multiset and up to the choice of the twin *)
+Definition canon3 (cf : Z -> Z) (x : Z * Z * Z) : Z * Z * Z := let '(a, b, c) := x in (cf a, cf b, c).
+Definition deliv_match (cf : Z -> Z) (twins : bool) (m o : list (Z * Z * Z)) : bool :=
+  if twins then triples_eqb (isort triple_leb (map (canon3 cf) m)) (isort triple_leb (map (canon3 cf) o)) else triples_eqb m o.
 
 Definition check_query (c : case) (qo : query * obs) : bool :=
   let q := fst qo in
@@ -38,7 +41,7 @@ Definition check_query (c : case) (qo : query * obs) : bool :=
   match model c q, snd qo with
   | Ok out, OOk d t dl op =>
       trees_match cf (odirect out) d && (is_ns q || trees_match cf (otrans out) t) &&
-      deliv_match (has_twins (cfiles c)) (odeliv out) dl &&
+      deliv_match cf (has_twins (cfiles c)) (odeliv out) dl &&
       zlist_eqb (zdedupe (zsort (oopened out))) (zdedupe (zsort op))
   | Err e, OErr CInvalidDefinition => real_err e
   | _, _ => false
